@@ -30,6 +30,9 @@ TOKEN_PRIMITIVE = {
     'mvdr_souden': B + 'get_mvdr_vector_souden', 'gev': B + 'get_gev_vector', 'wmwf': B + 'get_wmwf_vector',
     'rank1_pca': W + 'get_pca_rank_one_estimate', 'rank1_gev': W + 'get_gev_rank_one_estimate', 'ban': B + 'blind_analytic_normalization',
 }
+# the names the wrapper supports on the pinned tree (its own if-chain); a name that stops being accepted is a finding
+SUPPORTED = ['pca', 'pca+mvdr', 'scaled_gev_atf+mvdr', 'mvdr_souden', 'rank1_pca+mvdr_souden', 'rank1_gev+mvdr_souden',
+             'gev', 'rank1_pca+gev', 'rank1_gev+gev', 'wmwf', 'rank1_pca+wmwf', 'rank1_gev+wmwf']
 DISPATCH_HELPERS = {W + '_get_atf_vector', W + '_get_rank_1_approximation'}
 
 
@@ -69,8 +72,8 @@ def flatten_calls(ctx):
 
 def check_dispatch(run, A):
     fn = A.prog.func(Q)
-    names = accepted_names(A)
-    run.floor('beamformer names accepted by the wrapper', len(names), 12)
+    names = sorted(set(accepted_names(A)) | set(SUPPORTED))
+    run.count('beamformer names (accepted by the wrapper or documented)', len(names))
     n = 0
     for base in names:
         for ban in (False, True):
@@ -229,7 +232,10 @@ def check_stable_solve(run, A):
                 why.append('a per-matrix solve reads something else than the i-th slice')
     # per-matrix try/except: the lstsq fallback is inside a handler inside the loop
     lst = [e for e in solves if call_parts(e.term)[0] == 'numpy.linalg.lstsq']
-    per_matrix = bool(lst) and all(any(c.op == 'caught' for c, _ in e.guards) and e.loops and e.loops[-1] == L.id for e in lst)
+    plain = [e for e in solves if call_parts(e.term)[0] == 'numpy.linalg.solve']
+    # a per-matrix solve can raise on a singular matrix: it must sit in a per-matrix try whose handler falls back to lstsq
+    per_matrix = (not plain) or (bool(lst) and all(any(c.op == 'caught' for c, _ in e.guards) and e.loops and e.loops[-1] == L.id for e in lst)
+                                 and all(any(c.op == 'nondet' and c.args[0] == 'try' for c, _ in e.guards if True) for e in plain))
     run.check(ok and per_matrix, 'LOOP', 'stable_solve: per-matrix fallback is index-local', fn.loc(L.node), f'{len(solves)} per-matrix solves',
               f'fallback loop is not index-local ({"; ".join(sorted(set(why)))}); per-matrix try/except around lstsq: {per_matrix}', construct=f'LOOP::{q}::index-local')
     # fast path: the whole stack is tried first
